@@ -11,6 +11,7 @@ SIM="$V/sim/target/release/seedsim"
 OUT=$(mktemp -d /var/tmp/seedsim-selfcheck.XXXXXX)
 trap 'rm -rf "$OUT"' EXIT
 export SEEDSIM_OUT_DIR="$OUT"
+export SEEDSIM_STRICT_PROBES=1
 fail=0
 N=300; [ "$MODE" = "thorough" ] && N=5000
 
